@@ -110,8 +110,19 @@ func runC06(t *simrt.Tape, o Opts) Outcome {
 		if suffixOn {
 			w.Suffix = []string{"us-west-2", "r1", "prod"}[t.Choose(3, "suffix.which")]
 		}
+		// service and product names vary too (equal names make key ids most ambiguous)
+		names := [][2]string{{"svc", "prod"}, {"app", "app"}, {"a", "b"}, {"svc_x", "prod"}}
+		nm := names[t.Choose(len(names), "names")]
+		w.Service, w.Product = nm[0], nm[1]
 		pol := world.GenPolicy(t, world.GenOpts{AllowTinyLFU: allowTinyLFU})
 		p := w.NewProc(pol)
+		// a mixed deployment: some records were written by a process whose metastore does not suffix key ids
+		var legacy *world.Proc
+		if suffixOn && t.Choose(2, "legacy-writer") == 1 {
+			w.NextProcUnsuffixed = true
+			legacy = w.NewProc(pol)
+			w.NextProcUnsuffixed = false
+		}
 		parts := partitionGrammar(t, w.Service, w.Product, "us-west-2")
 		// empty partition ids are refused
 		count(st.Oracle, "empty-partition-refused")
@@ -128,6 +139,11 @@ func runC06(t *simrt.Tape, o Opts) Outcome {
 			nrec := 1 + t.Choose(2, "nrec")
 			for i := 0; i < nrec; i++ {
 				w.Encrypt(se, w.Payload(2))
+			}
+			if legacy != nil {
+				if lse, err := w.Open(legacy, part); err == nil {
+					w.Encrypt(lse, w.Payload(2))
+				}
 			}
 		}
 		classes := map[string]bool{}
@@ -149,9 +165,10 @@ func runC06(t *simrt.Tape, o Opts) Outcome {
 				attempted = true
 				count(st.Oracle, "foreign-decrypt")
 				out, op := w.Decrypt(se, &rec.DRR)
-				classes[fmt.Sprintf("suffix=%v/%s/%s", suffixOn, cacheKind(pol), relation(part, rec.Part))] = true
+				legacyRec := legacy != nil && rec.Proc == legacy.ID
+				classes[fmt.Sprintf("suffix=%v/%s/%s/legacy=%v/%s", suffixOn, cacheKind(pol), relation(part, rec.Part), legacyRec, w.Service+"."+w.Product)] = true
 				if op.Panic == "" && op.Err == nil {
-					w.Violate("foreign-decrypt-ok", fmt.Sprintf("foreign-decrypt-ok/suffix=%v/%s", suffixOn, relation(part, rec.Part)), "a session for partition %q decrypted a record of partition %q (key id %s) and returned %d bytes (equal to the original: %v)", part, rec.Part, rec.IKID, len(out), bytes.Equal(out, rec.Payload))
+					w.Violate("foreign-decrypt-ok", fmt.Sprintf("foreign-decrypt-ok/suffix=%v/%s/legacy-record=%v/same-service-product=%v", suffixOn, relation(part, rec.Part), legacyRec, w.Service == w.Product), "a session for partition %q decrypted a record of partition %q (key id %s) and returned %d bytes (equal to the original: %v)", part, rec.Part, rec.IKID, len(out), bytes.Equal(out, rec.Payload))
 				}
 			}
 		}
